@@ -225,4 +225,10 @@ example : LK.Gen.NegC20.sampleT { nCols := 3, observed := [(0, 1)], storedCols :
 example : LK.Gen.NegC20.sampleT { nCols := 3, observed := [(0, 1)], storedCols := [1] } .uniform 0 [0] [[1]]
     = some { cols := [1], warned := true, rest := [] } := by decide
 
+/-- C09: unit vectors, a stored-neighbour limit of 1 that truncates the row of item 0 (two entries reach the threshold) -/
+example : (fun r => r.1.zip r.2) (LK.Gen.SimC09.simRowT 0 [[1, 0], [4 / 5, 3 / 5], [3 / 5, 4 / 5]] [1, 0] 1 (1 / 10) (some 1)) = [(1, 4 / 5)] := by
+  decide +kernel
+example : ∀ j, j < 3 → LK.KNN.dot ([[1, 0], [4 / 5, 3 / 5], [3 / 5, 4 / 5]].getD 0 []) (([[1, 0], [4 / 5, 3 / 5], [3 / 5, 4 / 5]] : List (List LK.KNN.Q)).getD j []) ≤ 1 := by
+  decide +kernel
+
 end Translations
